@@ -370,6 +370,13 @@ class EvalFunc:
         self.global_ctx_name = trig_ctx_name
         got_reqd_dec = False
         exc_mesg = f"function '{func_name}' defined in {trig_ctx_name}"
+        if trig_ctx.stopped:
+            #
+            # the script was unloaded or reloaded while this code was still running;
+            # nothing would ever stop a trigger or remove a service registered now
+            #
+            self.logger.debug("%s: not activated since the script is no longer loaded", exc_mesg)
+            return
         trig_decorators_reqd = {
             "event_trigger",
             "mqtt_trigger",
